@@ -14,6 +14,7 @@ import (
 	"log/slog"
 	"net/http"
 	"os"
+	"path/filepath"
 	"sync/atomic"
 	"testing"
 	"time"
@@ -88,8 +89,17 @@ func (s *Server) fileHandler(w http.ResponseWriter, r *http.Request) {
 		return
 	}
 
-	/* For everything else, let the http library do the work. */
-	http.FileServer(http.Dir(s.fdir)).ServeHTTP(w, r)
+	/* For everything else, let the http library do the work.  It cleans
+	the name of the directory it's given lexically, though, which names
+	another directory than the one we've just opened if a symlink is
+	followed by .. in it, so give it the directory's real name. */
+	dir, err := filepath.EvalSymlinks(s.fdir)
+	if nil != err {
+		s.RErrorLogf(r, "Could not resolve %s: %s", s.fdir, err)
+		http.Error(w, "", http.StatusInternalServerError)
+		return
+	}
+	http.FileServer(http.Dir(dir)).ServeHTTP(w, r)
 }
 
 // inputHandler sends input to a shell.
